@@ -281,6 +281,14 @@ def run(tier, only=None):
         R.case(["faraway", r["k"]], True, sample={"faraway_errors_per_decade": r["errs"]} if r["k"] == 0 else None, section="faraway")
         for sig, p in r["bad"]:
             R.violation(sig, {"k": r["k"], "detail": p, "kind": "faraway"})
+    # a multi-section surface handed to the point == an ordinary surface with the unified mesh and the same options
+    from .. import multisec
+
+    for r in check_exc(pmap(multisec.equivalence_job, range(16 if tier == "quick" else 160))):
+        R.replayed += 1
+        R.case(["multisec_vs_plain", r["k"]], True, sample=r["case"] if r["k"] % 7 == 0 else None, section="multisection")
+        for sig, p in r["bad"]:
+            R.violation(sig, {"k": r["k"], "case": r["case"], "detail": p, "kind": "multisec_vs_plain"})
     jobs = [(k, mode) for k in range(n) for mode in ("fwd", "rev")]
     for r in check_exc(pmap(_mphys_job, jobs)):
         R.replayed += 1
